@@ -49,7 +49,7 @@ def families(tier):
         ("M-unknotted", lambda: _knotted(enum2d.M(5), False), 1),
         ("M-exotic-letters", lambda: (enum2d.exotic(c) for c in enum2d.M(6, nmin=3)), 1),
         # more than ten stems (two-digit region numbers in the MILP's variable names): hairpins around a small knot
-        ("many-stems", lambda: (c for k, c in enumerate(__import__("mc.props.c02", fromlist=["x"])._many_stems(tier)) if k % 3 == 0), 1),
+        ("many-stems", lambda: (c for k, c in enumerate(__import__("mc.props.c02", fromlist=["x"])._many_stems(tier)) if k % 3 == 0 and c["n"] <= 150), 1),
     ]
 
 
